@@ -1,0 +1,16 @@
+//go:build verif
+
+package piece
+
+// VerifData returns a copy of a piece's buffer (nil if the piece holds none),
+// taken under the lock, so that the harness can check that stored blocks are
+// never modified and that complete pieces hold the reference content.
+func (ps *Pieces) VerifData(index uint32) []byte {
+	ps.mu.RLock()
+	defer ps.mu.RUnlock()
+	d := ps.pieces[index].data
+	if d == nil {
+		return nil
+	}
+	return append([]byte(nil), d...)
+}
